@@ -10,6 +10,7 @@ import AslProofs.XdlPrefixStr
 import AslProofs.NumValDefs
 import AslProofs.IntLit
 import AslProofs.XdlComment
+import AslProofs.XdlAtoiz
 /-!
 # C06 — JSON/XDL decoding is total, memory-safe, chunk-independent and RFC 8259 conformant
 
@@ -227,6 +228,44 @@ example : Rfc8259.SerDoc
   exact Rfc8259.SerV.obj _ _
     (Rfc8259.SerMembers.one [97] _ [] [97] [] [] _ [] hws (.plain 97 [] [] (by unfold Rfc8259.unescaped; decide) .nil) hws hws
       (Rfc8259.SerV.arr _ _ e) hws)
+
+/-! ## `myatoiz` (state INT, literals of at most `intSplit` characters) tied to src/String.cpp
+
+`Gen.Xdl.myatoiz` / `Gen.Xdl.atoizStep` are regenerated on every run from the text of `myatoiz` in src/String.cpp (sign characters, the
+multiplier and the `'0'` of `y = 10 * y + (c - '0')`; any other shape of the function is refused by the translator). -/
+
+/-- the hand-written `AslModel.Xdl.myatoiz` the parser model calls IS the regenerated function (so `rfc_accept` / `int_literal_value`
+    stop building when the source's conversion changes) -/
+theorem myatoiz_from_source (s : Bytes) : myatoiz s = Gen.Xdl.myatoiz s := by
+  unfold myatoiz Gen.Xdl.myatoiz
+  split
+  · rfl
+  · rfl
+  · split
+    · simp_all
+    · simp_all
+    · rfl
+
+/-- no signed overflow in `myatoiz` on what state INT hands to it: for `[-]digits` of at most `intSplit` characters every
+    intermediate `y` of the loop (the fold over every prefix of the digits) is in `[0, 2^31)`, so `y*sgn` is an `int` too -/
+theorem myatoiz_no_overflow (minus ds : Bytes) (hd : ∀ c ∈ ds, isDigit c = true)
+    (hl : (minus ++ ds).length ≤ Gen.Xdl.intSplit) (p : Bytes) (hp : p <+: ds) :
+    0 ≤ p.foldl Gen.Xdl.atoizStep 0 ∧ p.foldl Gen.Xdl.atoizStep 0 < 2 ^ 31 := by
+  obtain ⟨r, rfl⟩ := hp
+  have h := AslProofs.XdlAtoiz.atoiz_bound p (fun c hc => hd c (by simp [hc])) 0 0 (by omega) (by decide)
+  have hlen : p.length ≤ 9 := by
+    have : Gen.Xdl.intSplit = 9 := rfl
+    simp only [List.length_append] at hl; omega
+  have h9 : (10 : Int) ^ (0 + p.length) ≤ 10 ^ 9 := by
+    rw [Nat.zero_add]
+    exact_mod_cast Nat.pow_le_pow_right (by decide : 0 < 10) hlen
+  refine ⟨h.1, ?_⟩
+  have : (10 : Int) ^ 9 < 2 ^ 31 := by decide
+  omega
+
+example : Gen.Xdl.myatoiz [45, 49, 50, 48] = -120 := by decide
+example : ∀ c ∈ ([57, 57, 57, 57, 57, 57, 57, 57, 57] : Bytes), isDigit c = true := by decide
+example : ([] ++ [57, 57, 57, 57, 57, 57, 57, 57, 57] : Bytes).length ≤ Gen.Xdl.intSplit := by decide
 
 /-! ## XDL comments: the grammar the filter accepts, and its transparency
 
